@@ -1,2 +1,158 @@
-/-! line-protocol driver of the Box family (placeholder until the family is built) -/
-def main : IO Unit := pure ()
+import BumpVerif.Model.Box
+/-!
+Line-protocol driver of the Box family: reads the trace written by `bvh_box` on stdin, replays
+every operation on the ownership machine (`BumpVerif.Model.Box`) and prints a `DIFF` line for
+every field (`res`, `owned`, `drops`, `moved`, `ab`, `chunks`, `used`, `evt`) in which model and
+implementation disagree.  The only inputs taken from the implementation's side of a line are the
+arena figures after a call that went into the arena (`env=ab,chunks,used,evt`): how much the
+arena hands out is the arena family's business, not this model's.  After the first diverging
+line of a plan the rest of that plan is skipped (the states no longer correspond).
+-/
+open Bump.Bx
+
+def kv (toks : List String) (key : String) : Option String :=
+  toks.findSome? fun t =>
+    if t.startsWith (key ++ "=") then some (t.drop (key.length + 1)).toString else none
+
+def kvNat (toks : List String) (key : String) : Option Nat := (kv toks key).bind (·.toNat?)
+
+def parseList (s : String) : List Nat :=
+  if s == "-" || s.isEmpty then [] else (s.splitOn ",").filterMap (·.toNat?)
+
+def hexVal (c : Char) : Nat :=
+  if c.isDigit then c.toNat - 48 else if 'a' ≤ c ∧ c ≤ 'f' then c.toNat - 87 else 0
+
+def parseHex (s : String) : List Nat :=
+  if s == "-" then [] else
+  let rec go : List Char → List Nat
+    | a :: b :: rest => (hexVal a * 16 + hexVal b) :: go rest
+    | _ => []
+  go s.toList
+
+structure DState where
+  planIdx : Nat := 0
+  z : Bool := false
+  w : W := W.init 4
+  dead : Bool := false       -- a line of this plan already diverged
+  lineNo : Nat := 0
+  lines : Nat := 0
+  diffs : Nat := 0
+  kinds : List (String × Nat) := []
+
+def bumpK (ks : List (String × Nat)) (k : String) : List (String × Nat) :=
+  match ks with
+  | [] => [(k, 1)]
+  | (k', n) :: rest => if k' == k then (k', n + 1) :: rest else (k', n) :: bumpK rest k
+
+/-- operation text → model operation (`z`: element values are immaterial, taken as 0) -/
+def parseOp (z : Bool) (toks : List String) : Option Op := do
+  let name ← toks.head?
+  let n := fun k => (kvNat toks k).getD 0
+  let ev := fun k => if z then 0 else n k        -- an element value
+  let xs := (parseList ((kv toks "xs").getD "-")).map fun x => if z then 0 else x
+  let s := n "s"
+  match name with
+  | "new" => some (.new s (ev "x") (n "t"))
+  | "pin" => some (.pin s (ev "x"))
+  | "new_arr" => some (.newArr s xs)
+  | "from_iter" => some (.fromIter s xs)
+  | "vec" => some (.vec s xs (if z then 2 ^ 64 - 1 else min (max (n "cap") xs.length) 64))
+  | "new_any" => some (.newAny s (ev "x") (n "t"))
+  | "new_fn" => some (.newFn s (ev "x"))
+  | "new_str" => some (.newStr s (parseHex ((kv toks "t").getD "-")))
+  | "default_slice" => some (.defaultSlice s)
+  | "default_str" => some (.defaultStr s)
+  | "drop" => some (.drop s (kvNat toks "dpanic"))
+  | "into_inner" => some (.intoInner s)
+  | "into_raw" => some (.intoRaw s)
+  | "from_raw" => some (.fromRaw s)
+  | "leak" => some (.leak s)
+  | "to_any" => some (.toAny s)
+  | "downcast" => some (.downcast s (n "t"))
+  | "into_pin" => some (.intoPin s)
+  | "unpin" => some (.unpin s)
+  | "arr_to_slice" => some (.arrToSlice s)
+  | "slice_to_arr" => some (.sliceToArr s (n "n"))
+  | "into_boxed_slice" => some (.intoBoxedSlice s)
+  | "from_vec" => some (.fromVec s)
+  | "slice_to_vec" => some (.sliceToVec s)
+  | "vec_push" => some (.vecPush s (ev "x"))
+  | "read" => some (.read s)
+  | "views" => some (.views s)
+  | "write" => some (.write s (n "i") (ev "x"))
+  | "call" => some (.call s (n "x"))
+  | "cmp" => some (.cmp (n "a") (n "b"))
+  | "fmt" => some (.fmt s)
+  | "hash" => some (.hash s)
+  | "ptrfmt" => some (.ptrfmt s)
+  | "iter_probe" => some (.iterProbe (n "lo") (n "hi") (n "n"))
+  | "poll_probe" => some (.pollProbe (n "x"))
+  | "hasher_probe" => some (.hasherProbe (n "x"))
+  | _ => none
+
+def splitSections (line : String) : List String := (line.splitOn " | ").map (·.trimAscii.toString)
+def sectionOf (secs : List String) (tag : String) : String :=
+  match secs.find? (·.startsWith (tag ++ " ")) with
+  | some s => (s.drop (tag.length + 1)).toString
+  | none => ""
+
+def parseEnv (w : W) (toks : List String) : Env :=
+  match (kv toks "env").map (·.splitOn ",") with
+  | some [a, b, c, d] => ⟨⟨a.toNat?.getD 0, b.toNat?.getD 0, c.toNat?.getD 0⟩, d.toNat?.getD 0⟩
+  | _ => ⟨w.acct, 0⟩
+
+def processLine (st : DState) (line : String) : DState × List String :=
+  let st := { st with lineNo := st.lineNo + 1 }
+  let line := line.trimAscii.toString
+  if line.isEmpty || line.startsWith "#" || line.startsWith "ORACLE" || line.startsWith "SUMMARY" then (st, [])
+  else if line.startsWith "PLAN" then
+    let toks := line.splitOn " "
+    ({ st with planIdx := (kvNat toks "idx").getD 0, z := (kv toks "kind") == some "Z",
+               w := W.init ((kvNat toks "ns").getD 4), dead := false }, [])
+  else if st.dead then (st, [])
+  else
+    let mk := fun (name field m i : String) => s!"DIFF plan={st.planIdx} line={st.lineNo} op={name} field={field} model={m} impl={i}"
+    if line.startsWith "END" then
+      let toks := line.splitOn " "
+      let m := showIds st.z (endDrops st.w)
+      let i := (kv toks "drops").getD "[]"
+      let ds := if m != i then [mk "end" "drops" m i] else []
+      ({ st with diffs := st.diffs + ds.length, dead := true }, ds)
+    else
+      let secs := splitSections line
+      let opToks := (secs.headD "").splitOn " "
+      let name := opToks.headD "?"
+      let iRes := sectionOf secs "RES"
+      let iObs := sectionOf secs "OBS"
+      let obsToks := iObs.splitOn " "
+      match parseOp st.z opToks with
+      | none => ({ st with diffs := st.diffs + 1, dead := true }, [mk name "parse" "unknown-operation" "-"])
+      | some op =>
+        let w := st.w
+        let env := parseEnv w opToks
+        let (eff, mRes) := effOf st.z op w
+        let w' := applyEff env eff w
+        let cmpF := fun (field m : String) =>
+          let i := (kv obsToks field).getD "?"
+          if m != i then [mk name field m i] else []
+        let d1 := if mRes != iRes then [mk name "res" mRes iRes] else []
+        let mOwned := "[" ++ ";".intercalate (w'.slots.map (showSlot st.z)) ++ "]"
+        let ds := d1 ++ cmpF "owned" mOwned
+          ++ cmpF "drops" (showIds st.z (w'.drops.drop w.drops.length))
+          ++ cmpF "moved" (showIds st.z (w'.moved.drop w.moved.length))
+          ++ cmpF "ab" (toString w'.acct.ab) ++ cmpF "chunks" (toString w'.acct.chunks) ++ cmpF "used" (toString w'.acct.used)
+          ++ cmpF "evt" (toString (evtOf env eff))
+        let kind := name ++ ":" ++ (mRes.splitOn " ").headD ""
+        ({ st with w := w', lines := st.lines + 1, diffs := st.diffs + ds.length, dead := !ds.isEmpty, kinds := bumpK st.kinds kind }, ds)
+
+partial def loop (h : IO.FS.Stream) (st : DState) : IO DState := do
+  let line ← h.getLine
+  if line.isEmpty then return st
+  let (st', outs) := processLine st line
+  for o in outs do IO.println o
+  loop h st'
+
+def main : IO Unit := do
+  let st ← loop (← IO.getStdin) {}
+  let ks := ",".intercalate (st.kinds.map fun (k, n) => s!"{k}={n}")
+  IO.println s!"DRIVER lines={st.lines} diffs={st.diffs} kinds={ks}"
